@@ -423,7 +423,8 @@ CHECK = {
             "15% pure yaw, random otherwise; translations up to 1e3), poses up to 1e4 with |pitch| <= pi/2-0.05 before and after, PSD 6x6 "
             "covariances of rank 0..6 and scale 1e-4..1e2; least squares: 1..4 unknowns, up to 5 redundant rows, dyadic entries, full rank, "
             "diagonal preconditioners and, every second problem, a full non-symmetric preconditioner (case kind lsg). Non-trivial = distinct case with a finite result.",
-    "trusted": ["hand-written models coq/AnglesModel.v, coq/PoseCovModel.v tied by differential execution (this run)",
+    "trusted": ["translator translate/eigensym.py + tr_C12_eigensym.py: clang JSON AST -> entry-wise symbolic values; its reading of the Eigen operations it accepts (coefficient access, Zero/Identity/Unit*, comma-initialiser block placement, * + - unary -, transpose, col/row/block/head, cross); anything else is refused (fail closed)",
+                "hand-written models coq/AnglesModel.v, coq/PoseCovModel.v tied by differential execution (this run)",
                 "extraction (ExtrOcamlBasic), ocaml/numf.ml, ocaml/drv_C12.ml", "harness/C12.cpp, python/mpmath/Fraction oracle in checks/C12.py",
                 "Eigen: Transform::rotation() returns the linear part of a rigid transform; LDLT solve returns the inverse (contract checked)"],
     "manifest": {
@@ -432,7 +433,8 @@ CHECK = {
                 "instance, coq/SrcTieC12.v): (1) SmartRotation3D(x,y,z) = the default constructor's Identity/Zero member initialisers followed "
                 "by init(x,y,z) — all ten member matrices, element writes and the three-factor products included — equal Rx_of..dRz_of and "
                 "smart_init (C12_source_tie_smart_rotation; dRTdAngles: C12_source_tie_smart_dRTdAngles), i.e. exactly the model whose "
-                "'true derivative + identity leftover' characterisation the open known finding is keyed on; (2) operator*(Affine3d, Pose3D) of "
+                "'true derivative + identity leftover' characterisation the open known finding is keyed on — and that finding is restated about the "
+                "generated terms themselves (C12_source_smart_derivative_leftover); (2) operator*(Affine3d, Pose3D) of "
                 "src/geometry/Pose3D.cpp: the comma initialisers with column / row / cross-product blocks, the loop over k (unrolled), the block "
                 "assignment and the scalar coefficients give a 6x6 local J equal to pose_J in all 36 entries, the returned position = l*p + t, the "
                 "matrix handed to rotation3DToEulerAngles = l*S (S through the inlined delegating constructor), the returned orientation = the C10 "
